@@ -65,6 +65,8 @@ pub enum Dec {
     SkipPastObjUnchecked, // {"s":lit,"v":"tail"} get_unchecked(["v"])
     /// the literal is decoded right after another string of the same document went through the
     /// decoder's scratch buffer (state carried from one string to the next)
+    DeValue,             // Deserializer::from_slice(..).deserialize::<Value>() (first value, in place)
+    StreamFirstValue,    // first document of into_stream::<Value>()
     AfterEscString,      // ["k\tv",lit] as (String, String)
     AfterEscStreamValue, // 0 ["k\tv",lit] second stream document as Value (copy parser)
     LossyValue,
@@ -98,6 +100,8 @@ pub const STRICT: &[Dec] = &[
     Dec::SkipPastObjUnchecked,
     Dec::AfterEscString,
     Dec::AfterEscStreamValue,
+    Dec::DeValue,
+    Dec::StreamFirstValue,
 ];
 pub const LOSSY: &[Dec] = &[
     Dec::LossyValue,
@@ -118,7 +122,7 @@ pub fn wrap(dec: Dec, lit: &[u8], out: &mut Vec<u8>) {
     out.clear();
     match dec {
         Dec::RootValue | Dec::RootString | Dec::RootStr | Dec::RootCow | Dec::LazyRoot | Dec::OwnedLazyRoot
-        | Dec::LossyValue | Dec::LossyString => out.extend_from_slice(lit),
+        | Dec::LossyValue | Dec::LossyString | Dec::DeValue | Dec::StreamFirstValue => out.extend_from_slice(lit),
         Dec::FieldValue | Dec::FieldString | Dec::FieldCow | Dec::FieldStr | Dec::LazyField | Dec::GetLazy
         | Dec::GetUncheckedLazy => {
             out.extend_from_slice(b"{\"v\":");
@@ -298,6 +302,16 @@ pub fn decode(dec: Dec, text: &[u8]) -> Option<Obs> {
                 let v: HashMap<String, u8> = e(de.deserialize())?;
                 own(v.keys().next().ok_or(Obs::Err("empty map".into()))?)
             }
+            Dec::DeValue => {
+                let mut de = Deserializer::from_slice(text);
+                let v: Value = e(de.deserialize())?;
+                own(v.as_str().ok_or(Obs::Err("not a string".into()))?)
+            }
+            Dec::StreamFirstValue => {
+                let mut st = Deserializer::from_slice(text).into_stream::<Value>();
+                let v = e(st.next().ok_or(Obs::Err("stream ended".into()))?)?;
+                own(v.as_str().ok_or(Obs::Err("not a string".into()))?)
+            }
             Dec::AfterEscString => {
                 let v: (String, String) = e(sonic_rs::from_slice(text))?;
                 if v.0 != "k\tv" {
@@ -372,7 +386,7 @@ pub fn expected(dec: Dec, lit: &[u8]) -> Option<Result<(String, Option<bool>), r
         }
         // entry points that do not look behind the value they return
         Dec::GetLazy | Dec::GetUncheckedLazy => refjson::parse_value_at(&text, 5, mode),
-        Dec::LossyValue | Dec::LossyString | Dec::LossyKey | Dec::LossyAfterEscString | Dec::LossyAfterRepairedString => {
+        Dec::LossyValue | Dec::LossyString | Dec::LossyKey | Dec::LossyAfterEscString | Dec::LossyAfterRepairedString | Dec::DeValue | Dec::StreamFirstValue => {
             refjson::parse_value_at(&text, 0, mode)
         }
         _ => refjson::parse_doc(&text, mode),
